@@ -167,7 +167,14 @@ func (d *DKG) StoreDeal(participant string, deal *dkg.Deal) {
 
 func (d *DKG) ProcessDeals() ([]*dkg.Response, error) {
 	responses := make([]*dkg.Response, 0)
+	// Deals are processed in the order of their dealers: every response is signed with the next nonce of the round's
+	// deterministic random stream, so a replay of the round must sign the same responses with the same nonces.
+	deals := make([]*dkg.Deal, 0, len(d.deals))
 	for _, deal := range d.deals {
+		deals = append(deals, deal)
+	}
+	sort.Slice(deals, func(i, j int) bool { return deals[i].Index < deals[j].Index })
+	for _, deal := range deals {
 		if deal.Index == uint32(d.ParticipantID) {
 			continue
 		}
